@@ -103,12 +103,83 @@ def check_need_wait_atomic(res, E):
             res.inconclusive.append("need_wait reads the history more than once: the atomic 'check' step is not justified")
 
 
+def check_need_wait_spec(res, E):
+    """need_wait (the 'check' step of the model) waits exactly when the presented (session, serial) is the served one."""
+    body = [b for n, bs in E.prog.bodies.items() if re.search(r"(^|::)need_wait$", n) for b in bs]
+    if len(body) != 1:
+        res.inconclusive.append("need_wait: %d bodies" % len(body))
+        return
+    qs, qn = z3.BitVec("presented_session", 64), z3.BitVec("presented_serial", 32)
+    hs, hn = z3.BitVec("served_session", 64), z3.BitVec("served_serial", 32)
+
+    def m_query(E_, st, frame, callee, argvals, dest_ty):
+        E_.fresh_n += 1
+        d = z3.Int("has_version!%d" % E_.fresh_n)
+        st.cond.append(z3.Or(d == 0, d == 1))
+        return {("disc",): z3.IntVal(0), (("v", "Ok"), ("f", 0), "disc"): d,
+                (("v", "Ok"), ("f", 0), ("v", "Some"), ("f", 0), ("f", 0)): qs,
+                (("v", "Ok"), ("f", 0), ("v", "Some"), ("f", 0), ("f", 1)): qn}
+
+    def m_sas(E_, st, frame, callee, argvals, dest_ty):
+        return {(("f", 0),): hs, (("f", 1),): hn}
+
+    def m_sess(E_, st, frame, callee, argvals, dest_ty):
+        return {(): hs}
+
+    def m_ser(E_, st, frame, callee, argvals, dest_ty):
+        return {(): hn}
+
+    def m_tuple_cmp(E_, st, frame, callee, argvals, dest_ty):
+        a, b = E_._through_ref(st, argvals[0]), E_._through_ref(st, argvals[1])
+
+        def fld(v, i):
+            x = v.get((("f", i),))
+            return x if x is not None else v.get((("f", i), ("f", 0)))
+        pairs = [(fld(a, 0), fld(b, 0)), (fld(a, 1), fld(b, 1))]
+        if not all(mir.is_z(x) and mir.is_z(y) and x.sort() == y.sort() for x, y in pairs):
+            return NotImplemented
+        eq = z3.And([x == y for x, y in pairs])
+        return {(): eq if callee.strip().endswith("::eq") else z3.Not(eq)}
+
+    paths = E.explore(body[0].parse(), max_visits=2, nomut=[r"."], models={
+        r"(^|::)version_from_query$": m_query, r"PayloadHistory::session_and_serial$": m_sas,
+        r"PayloadHistory::session$|PayloadHistory::rtr_session$": m_sess, r"PayloadHistory::serial$": m_ser,
+        r"^<\(u64, (rpki::rtr::)?Serial\) as PartialEq>::(eq|ne)$": m_tuple_cmp})
+    res.functions.append("http::delta::need_wait (MIR): waits iff the presented version is the served one")
+    n = 0
+    for i, p in enumerate(paths):
+        if p.kind != "return":
+            continue
+        d = p.ret.get(("disc",))
+        v = p.ret.get((("v", "Ok"), ("f", 0)))
+        if d is None or not mir.is_z(v) or not E.feasible(p.cond, d == 0):
+            continue
+        n += 1
+        same = z3.And(qs == hs, qn == hn)
+        # a wait for a version that is not the served one is the property's violation; not waiting for the served
+        # one only costs a round trip and is not claimed
+        mdl = E.model(p.cond, z3.And(d == 0, v, z3.Not(same)))
+        if mdl is not None:
+            fn = mprop.write_cex(res, "need_wait_stale_%d" % i, p, E,
+                                 "need_wait returns Ok(true) (block until the next change) for presented (session %s, serial %s) "
+                                 "while the served version is (session %s, serial %s)" % (
+                                     mdl.eval(qs, True), mdl.eval(qn, True), mdl.eval(hs, True), mdl.eval(hn, True)), mdl)
+            res.violation("mir:need-wait-for-outdated-version",
+                          "the notify long-poll decides to wait although the presented version differs from the served one "
+                          "(the change the client is waiting for has already happened)", fn)
+            break
+    res.distinct += n
+    if n < 2:
+        res.inconclusive.append("vacuity: need_wait Ok paths=%d" % n)
+
+
 def run(res, tier):
     E = mprop.engine(res)
     res.extra.setdefault("source_files_sha256", {}).update(mprop.source_hashes(["src/http/delta.rs", "src/operation.rs"]))
     req = request_seqs(res, E)
     wr = writer_seq(res, E)
     check_need_wait_atomic(res, E)
+    check_need_wait_spec(res, E)
     _, rnodes = mc.build_automaton(req)
     n_writes = 1 if tier == "quick" else 2
     _, wnodes = mc.build_automaton([wr * n_writes])
